@@ -74,9 +74,15 @@ type NetPlan struct {
 	MaxBlkSize int    `json:"max_block_size,omitempty"`
 	Restart    []Span `json:"restart,omitempty"` // observer restarts (node index, at FromMS)
 	TailSeed   uint64 `json:"tail_seed"`         // seeds the decision stream once the explicit tape is used up
+	// HealMS: after DurationMS of a faulty run every fault stops (no loss, no silence, no lateness, delays <= 240 ms;
+	// duplicates and reordering stay) for at most that long: the run ends as soon as every validator has gained two blocks
+	HealMS int `json:"heal_ms,omitempty"`
 }
 
 const blockTimeMS = 1000
+
+// healWindowMS bounds the fault-free phase that follows a faulty run (see NetPlan.HealMS and finalNet)
+const healWindowMS = 300_000
 
 func drawNet(rt *rapid.T, p *Plan, prop, tier string) *Plan {
 	np := &NetPlan{Validators: 4}
@@ -150,6 +156,9 @@ func drawNet(rt *rapid.T, p *Plan, prop, tier string) *Plan {
 		np.Restart = append(np.Restart, Span{Node: np.Validators, FromMS: rapid.IntRange(2000, np.DurationMS-1000).Draw(rt, "restartat")})
 	}
 	np.TailSeed = rapid.Uint64Range(0, 1<<40).Draw(rt, "tailseed")
+	if !np.Sync && np.CorruptPM == 0 && rapid.IntRange(0, 1).Draw(rt, "heal") == 1 {
+		np.HealMS = healWindowMS
+	}
 	p.Net = np
 	p.Tape = drawTape(rt, 200)
 	return p
@@ -247,6 +256,10 @@ type netSim struct {
 	onChainResubmitted map[util.Uint256]bool
 	conflictVictims    map[util.Uint256][]util.Uint256 // tx named by Conflicts attributes -> the naming transactions
 	namers             map[util.Uint256]bool
+	healed             bool          // the fault-free phase after a faulty run has begun
+	healAt             time.Duration // when it began
+	healHeights        []uint32      // validators' heights at that moment
+	healedIn           time.Duration // how long it took every validator to gain two blocks (0: not yet)
 }
 
 func (s *netSim) now() time.Duration { return time.Since(s.start) }
@@ -264,6 +277,9 @@ func (s *netSim) enqueue(from, to int, kind string, raw []byte, want []util.Uint
 	s.outbox = append(s.outbox, outMsg{from: from, seq: n.outSeq, sentAt: s.now(), to: to, kind: kind, raw: raw, want: want})
 	s.mu.Unlock()
 }
+
+// healAssert: the bounded-liveness-after-faults oracle raises (VERIF_HEAL_ASSERT=0 only measures)
+var healAssert = os.Getenv("VERIF_HEAL_ASSERT") != "0"
 
 // netDebug (VERIF_NETDEBUG=1) adds every outbox entry and delivery to the event log; debugging aid only.
 var netDebug = os.Getenv("VERIF_NETDEBUG") != ""
@@ -303,6 +319,9 @@ func (a *bqAdapter) Put(b *block.Block) error {
 }
 
 func (s *netSim) spanAt(node int, t time.Duration) (silent bool, delay time.Duration) {
+	if s.healed {
+		return false, 0
+	}
 	ms := int(t / time.Millisecond)
 	for _, sp := range s.np.Spans {
 		if sp.Node == node && ms >= sp.FromMS && ms < sp.ToMS {
@@ -355,11 +374,15 @@ func (s *netSim) flushOutbox() {
 				s.r.out.Faults["dropped_by_silence"]++
 				continue
 			}
-			if s.np.DropPM > 0 && m.kind != "sync" && tape.Chance(s.np.DropPM, 1000) {
+			if s.np.DropPM > 0 && !s.healed && m.kind != "sync" && tape.Chance(s.np.DropPM, 1000) {
 				s.r.out.Faults["msg_dropped"]++
 				continue
 			}
-			delay := time.Duration(1+tape.Choose(max(1, s.np.MaxDelayMS))) * time.Millisecond
+			maxDelay := s.np.MaxDelayMS
+			if s.healed {
+				maxDelay = min(maxDelay, 240)
+			}
+			delay := time.Duration(1+tape.Choose(max(1, maxDelay))) * time.Millisecond
 			delay += late1 + late2
 			if late1+late2 > 0 {
 				s.r.out.Faults["msg_late"]++
@@ -373,7 +396,7 @@ func (s *netSim) flushOutbox() {
 			s.at(max(s.now(), m.sentAt+delay), func() { s.deliver(to, kind, raw) })
 			s.r.out.Probes["msg_scheduled"]++
 			if s.np.DupPM > 0 && tape.Chance(s.np.DupPM, 1000) {
-				d2 := delay + time.Duration(1+tape.Choose(max(1, s.np.MaxDelayMS)))*time.Millisecond
+				d2 := delay + time.Duration(1+tape.Choose(max(1, maxDelay)))*time.Millisecond
 				s.at(max(s.now(), m.sentAt+d2), func() { s.deliver(to, kind, raw) })
 				s.r.out.Faults["msg_duplicated"]++
 			}
@@ -805,12 +828,38 @@ func (r *run) runNet() {
 		rs := rs
 		s.at(time.Duration(rs.FromMS)*time.Millisecond, func() { s.restartObserver(rs.Node) })
 	}
-	for t := 1500; t < np.DurationMS; t += 1000 {
+	for t := 1500; t < np.DurationMS+np.HealMS; t += 1000 {
 		s.at(time.Duration(t)*time.Millisecond, s.syncOffer)
 	}
 	end := time.Duration(np.DurationMS) * time.Millisecond
 	const quantum = 25 * time.Millisecond
-	for s.now() < end && r.fail == nil {
+	for r.fail == nil {
+		if s.now() >= end {
+			if np.HealMS == 0 || s.healedIn > 0 {
+				break
+			}
+			if !s.healed {
+				s.healed, s.healAt = true, s.now()
+				for i := 0; i < np.Validators; i++ {
+					s.healHeights = append(s.healHeights, s.nodes[i].n.BC.BlockHeight())
+				}
+				r.log.Addf("t=%dms faults stop (heights %v)", s.now()/time.Millisecond, s.healHeights)
+				r.out.Probes["heal_phase_entered"]++
+			}
+			done := true
+			for i := 0; i < np.Validators; i++ {
+				if s.nodes[i].n.BC.BlockHeight() < s.healHeights[i]+2 {
+					done = false
+				}
+			}
+			if done {
+				s.healedIn = s.now() - s.healAt
+				break
+			}
+			if s.now() >= end+time.Duration(np.HealMS)*time.Millisecond {
+				break
+			}
+		}
 		next := s.now() + quantum
 		if len(s.heap) > 0 && s.heap[0].at < next {
 			next = s.heap[0].at
@@ -933,6 +982,30 @@ func (s *netSim) finalNet() {
 		r.out.Probes["runs_with_blocks"]++
 	}
 	r.log.Addf("end: heights %d..%d puts=%d", minH, maxH, s.puts)
+	if s.healed {
+		// bounded liveness once faults stop: all validators honest, every message delivered within 240 ms from healAt on
+		switch {
+		case s.healedIn == 0:
+			var hs []uint32
+			for i := 0; i < s.np.Validators; i++ {
+				hs = append(hs, s.nodes[i].n.BC.BlockHeight())
+			}
+			r.out.Probes["heal_not_recovered"]++
+			r.log.Addf("no recovery: heights at heal %v, now %v", s.healHeights, hs)
+			if healAssert {
+				r.violate(sim.Violatef("liveness", "liveness/after-heal", "faults stopped at %d ms (validator heights %v); %d ms of fault-free, timely delivery later the heights are %v: not every validator gained two blocks", s.healAt/time.Millisecond, s.healHeights, s.np.HealMS, hs))
+				return
+			}
+		case s.healedIn <= 5*time.Second:
+			r.out.Probes["healed_within_5s"]++
+		case s.healedIn <= 20*time.Second:
+			r.out.Probes["healed_within_20s"]++
+		case s.healedIn <= 60*time.Second:
+			r.out.Probes["healed_within_60s"]++
+		default:
+			r.out.Probes["healed_within_300s"]++
+		}
+	}
 	views := 0
 	for k, c := range r.P.LogCounts() {
 		_ = k
